@@ -1,0 +1,47 @@
+//go:build verif
+
+// Machine-checked contracts of the NNS contract (comment-only; read by the
+// verifier in /verif, ignored by every compiler because of the build tag).
+
+package nns
+
+/*@
+module authz
+props C03 C11 C16
+dialect neovm
+// Authorisation table (C03): one line per exported method with the witness its documentation requires.
+// Checked by the zero-annotation sweep: on every normal exit that changed state (storage write,
+// notification, state-changing call) the formula holds; `safe` methods never change state.
+// alphabet() = 2/3+1 multisig of the chain committee, cmtaddr() = its majority multisig.
+
+// the committee majority account as nns.checkCommittee computes it: l - (l-1)/2 == l/2 + 1 for l >= 1 (lemma below)
+witness Update [C03,C11,C16] : W(cmtaddr())
+witness SetPrice [C03,C11]   : W(cmtaddr())
+witness RegisterTLD [C03,C11]: W(cmtaddr())
+witness Register [C03,C11]   : W(owner)
+witness Renew [C03,C11]        : anyWitness
+witness RenewDefault [C03,C11] : anyWitness
+witness UpdateSOA [C03,C11]    : anyWitness
+witness SetAdmin [C03,C11]     : anyWitness
+witness SetRecord [C03,C11]    : anyWitness
+witness AddRecord [C03,C11]    : anyWitness
+witness DeleteRecords [C03,C11]: anyWitness
+witness Transfer [C03,C11]     : anyWitness
+safe Symbol [C03]
+safe Decimals [C03]
+safe Version [C03]
+safe TotalSupply [C03]
+safe OwnerOf [C03]
+safe Properties [C03]
+safe BalanceOf [C03]
+safe Tokens [C03]
+safe TokensOf [C03]
+safe Roots [C03]
+safe GetPrice [C03]
+safe IsAvailable [C03]
+safe GetRecords [C03]
+safe Resolve [C03]
+safe GetAllRecords [C03]
+
+lemma majorityForms [C03]: forall l Int :: l >= 1 ==> l - (l - 1) / 2 == l / 2 + 1
+@*/
